@@ -32,7 +32,12 @@ pub fn clear_with(msg: Message) {
         assert!(d[i] == 0);
         i += 1;
     }
-    // and a fresh builder is exactly that state with the flag down
+}
+/// ... and a fresh builder is exactly that state with the flag down (separate harness: no build call,
+/// so the 108-arm dispatch is not part of the program).
+#[kani::proof]
+#[kani::unwind(1031)]
+pub fn fresh_state() {
     let f = MessageBuilder::new();
     let (fd, fr) = f.verif_raw();
     assert!(!fr && fd[0] == 0xD3);
